@@ -24,6 +24,9 @@ import props as P  # noqa: E402
 
 VERIF = os.path.dirname(os.path.dirname(os.path.abspath(__file__)))
 REPO = os.environ.get('VERIF_REPO', '/repo')
+# evaluation runs against seeded copies write their evidence / replay files elsewhere so that the committed
+# evidence always comes from /repo itself
+OUT = os.environ.get('VERIF_OUT', VERIF)
 META_RE = re.compile(r'//%\s*(.*)')
 
 
@@ -33,10 +36,11 @@ def harness_catalog():
     for h in kani_run.list_harnesses():
         meta = {}
         for m in META_RE.finditer(h['attrs']):
-            for kv in re.findall(r'(\w+)=("[^"]*"|\S+)', m.group(1)):
+            for kv in re.findall(r'([\w.]+)=("[^"]*"|\S+)', m.group(1)):
                 meta[kv[0]] = kv[1].strip('"')
         h['props'] = meta.get('props', '').split(',') if meta.get('props') else []
         h['tier'] = meta.get('tier', 'quick')
+        h['tier_by_prop'] = {k[5:]: v for k, v in meta.items() if k.startswith('tier.')}   # e.g. tier.C07=thorough
         h['kind'] = meta.get('kind', 'P')
         h['bound'] = meta.get('bound')
         h['form'] = meta.get('form', 'plain')
@@ -50,6 +54,24 @@ def harness_catalog():
         um = re.search(r'kani::unwind\((\d+)\)', h['attrs'])
         h['unwind'] = int(um.group(1)) if um else None
         out.append(h)
+    return out
+
+
+def kani_scan(modules):
+    """kani::assume / kani::stub / stub_verified occurrences in the harness modules used by this run"""
+    out = []
+    for mod in sorted(set(modules)):
+        p = os.path.join(kani_run.KDIR, mod.replace('::', '__') + '.rs')
+        if not os.path.exists(p):
+            continue
+        for i, ln in enumerate(open(p, encoding='utf-8').read().split('\n'), 1):
+            st = ln.strip()
+            if st.startswith('//'):
+                continue
+            for kw in ('kani::assume', 'kani::stub', 'stub_verified', 'unsafe'):
+                if kw in ln:
+                    out.append(dict(file='contracts/kani/%s.rs' % mod.replace('::', '__'), line=i, keyword=kw, text=st[:140]))
+                    break
     return out
 
 
@@ -104,11 +126,11 @@ def run(prop, tier, seed):
     cfg = P.PROPS[prop]
     known = load_known()
     cat = [h for h in harness_catalog() if prop in h['props']]
-    sel = [h for h in cat if tier == 'thorough' or h['tier'] == 'quick']
+    sel = [h for h in cat if tier == 'thorough' or h['tier_by_prop'].get(prop, h['tier']) == 'quick']
     scratch = tempfile.mkdtemp(prefix='asca-verif-%s-' % prop)
     ev = dict(property_id=prop, tier=tier, seed=seed, level=cfg['level'], coverage={}, assumptions=[], wall_s=0.0, violations=0)
     undecided, violations, known_hits, stale, also_failed = [], [], [], [], []
-    verus_results, kani_results, mutant_results = [], [], []
+    verus_results, kani_results, mutant_results, stability = [], [], [], []
     try:
         # ---------------- Verus kernels
         vdir = os.path.join(scratch, 'verus')
@@ -197,7 +219,7 @@ def run(prop, tier, seed):
                         if kf:
                             known_hits.append((kf[0], entry))
                         else:
-                            rp = os.path.join(VERIF, 'replay', '%s-%s.json' % (prop, target_h['name']))
+                            rp = os.path.join(OUT, 'replay', '%s-%s.json' % (prop, target_h['name']))
                             write_json(rp, entry)
                             violations.append(dict(obligation=target_h['name'], replay=rp, note=what, with_input=True))
                             confirmed_one = True
@@ -230,12 +252,19 @@ def run(prop, tier, seed):
                     continue
                 if any(v['obligation'] == ob for v in violations):
                     continue   # same named obligation failing at several sites: one alarm
-                rp = os.path.join(VERIF, 'replay', '%s-%s.json' % (prop, ob.replace('/', '_')))
+                rp = os.path.join(OUT, 'replay', '%s-%s.json' % (prop, ob.replace('/', '_')))
                 write_json(rp, dict(property=prop, obligation=ob, backend='verus/z3', kernel=vr['kernel'], function=fo['function'],
                                     message=fo['message'], verifier_output=fo['rendered'], emitted_line=fo['line'], text=fo['text'],
                                     note='Verus gives no model; no Kani harness covering this clause produced a failing input',
                                     rerun='cd /verif && python3 engine/verus_run.py %s' % vr['kernel']))
                 violations.append(dict(obligation=ob, replay=rp, note=fo['message'], with_input=False))
+        # ---------------- proof stability (thorough tier, informational): same kernels under another Z3 seed
+        if tier == 'thorough':
+            sdir = os.path.join(scratch, 'verus-seed')
+            os.makedirs(sdir)
+            for k in kernels:
+                r2 = verus_run.run_kernel(k, REPO, sdir, smt_seed=seed + 17)
+                stability.append(dict(kernel=k, smt_random_seed=seed + 17, status=r2['status'], verified=r2.get('verified'), errors=r2.get('errors_excl_canary')))
         # ---------------- power check (thorough tier, scratch copies only)
         if tier == 'thorough' and not violations and all(r['status'] == 'ok' for r in verus_results):
             mutant_results = mutants.run_for_kernels(set(kernels), REPO)
@@ -274,12 +303,15 @@ def run(prop, tier, seed):
                                  failed=[dict(obligation=f['obligation'], function=f['function'], message=f['message']) for f in r.get('failed', [])])
                             for r in verus_results],
                    tagged_clauses_for_property=len(tags), tagged_clause_ids=[t['id'] for t in tags],
-                   functions=fns, rewrite_log=[e for r in verus_results for e in r.get('rewrite_log', [])]),
+                   functions=fns, rewrite_log=[e for r in verus_results for e in r.get('rewrite_log', [])],
+                   assumption_scan=[dict(kernel=r['kernel'], **a) for r in verus_results for a in r.get('assumption_scan', [])]),
+        kani_assumption_scan=kani_scan([r['meta']['module'] for r in kani_results]),
         kani=dict(harnesses=[dict(harness=r['harness'], status=r['status'], kind=r['meta']['kind'], form=r['meta']['form'], bound=r['meta']['bound'], unwind=r['meta']['unwind'],
                                   cbmc_checks=r['checks'], seconds=r['seconds'], covers_satisfied=sum(1 for c in r.get('covers', []) if c['status'] == 'SATISFIED'),
                                   covers_total=len(r.get('covers', [])), stubs=r.get('stubs', []), functions=r['meta']['pair'], clause=r['meta']['clause'],
                                   failed_checks=r['failed_checks'][:5], replay=r.get('replay')) for r in kani_results]),
         bounded=[dict(harness=r['harness'], bound=r['meta']['bound'], status=r['status'], note='bounded stand-in: NOT counted under obligations/discharged') for r in b_h],
+        proof_stability_under_other_smt_seed=stability or None,
         mutant_power_check=dict(run=len(mutant_results), killed=sum(1 for m in mutant_results if m['outcome'] == 'killed'), results=mutant_results) if mutant_results else None,
         proof_script_stale=stale, undecided=undecided, also_failed_not_replayed=also_failed,
         known_findings_hit=[dict(id=k['id'], obligation=k['obligation'], what=k['what'], note='fails exactly as recorded in known_findings.json; excluded from obligations/discharged') for k, _ in known_hits],
@@ -292,7 +324,7 @@ def run(prop, tier, seed):
     ev['wall_s'] = round(time.time() - t0, 1)
     if obligations == 0:
         undecided.append('no obligations were generated (vacuous run)')
-    write_json(os.path.join(VERIF, 'evidence', prop + '.json'), ev)
+    write_json(os.path.join(OUT, 'evidence', prop + '.json'), ev)
     # ---------------- verdict
     for k, _ in known_hits:
         print('KNOWN-FINDING: property=%s %s' % (prop, k['what']))
